@@ -63,6 +63,8 @@ class QueryMachine(Machine):
             cost = rng.choice(["nll", "nll", "nllr", "chi2", "gauss_approximation"])
         spec = fitlib.gen_new(rng, t, cost=cost, nmax=8 if tier == "quick" else 12)
         spec["tiny"] = False  # badly scaled problems test the optimiser's convergence (C06), not the query protocol
+        if t != "unbinned" and (spec["cost"].startswith("chi2") or spec["cost"].startswith("gauss")) and st("nodet").random() < 0.15:
+            spec["nodet"] = True  # documented option add_determinant_cost=False (cost function handed over as an object)
         names = fitlib.par_names(spec)
         n = fitlib.size_of(spec)
         ops = [["new", spec, []]]
